@@ -198,6 +198,9 @@ oracle = DESIGN.md Appendix B (transcribed from the rustdoc on the wire fields)"
     // ---- layout --------------------------------------------------------------------------------------
     let n_layout = ctx.tier.pick(30_000, 3_000_000);
     for i in 0..n_layout {
+        if i % 16 == 1 {
+            crate::props::poison::run(i as u64);
+        }
         let mut h = [0u16; 60];
         let mut used = std::collections::HashSet::new();
         for v in h.iter_mut() {
@@ -398,6 +401,12 @@ oracle = DESIGN.md Appendix B (transcribed from the rustdoc on the wire fields)"
         use nexrad_decode::messages::decode_messages;
         let n = ctx.tier.pick(20_000, 150_000);
         for i in 0..n {
+        if i % 16 == 1 {
+            crate::props::poison::run(i as u64);
+        }
+            if i % 16 == 1 {
+                crate::props::poison::run(i as u64);
+            }
             let mut h = enc::gen_rda_status_in_domain(&mut rng);
             if i % 3 == 0 {
                 h[14] = 0; // no alarm summary bits, whatever the alarm-code slots hold
@@ -479,6 +488,9 @@ oracle = DESIGN.md Appendix B (transcribed from the rustdoc on the wire fields)"
     // ---- alarm_messages(): non-zero codes, message order ----------------------------------------------------
     let n = ctx.tier.pick(50_000, 5_000_000);
     for i in 0..n {
+        if i % 16 == 1 {
+            crate::props::poison::run(i as u64);
+        }
         let mut m = base.clone();
         for a in m.alarm_codes.iter_mut() {
             *a = match rng.below(6) {
